@@ -70,6 +70,32 @@ func (env *Env) evalCall(x *ast.CallExpr, st *State) Val {
 				b := env.eval(x.Args[2], st)
 				ty := arithType(a, b)
 				return Val{T: ite(cnd, env.coerce(a, ty, st).T, env.coerce(b, ty, st).T), Ty: ty}
+			case "has":
+				m := env.eval(x.Args[0], st)
+				k := env.eval(x.Args[1], st)
+				ms := env.sortOf(m.Ty)
+				if mt, ok := types.Unalias(env.subst(m.Ty)).Underlying().(*types.Map); ok {
+					k = env.coerce(k, mt.Key(), st)
+				}
+				return boolVal(app("select", app("mh_"+ms, m.T), k.T))
+			case "seqlen":
+				sq := env.eval(x.Args[0], st)
+				ln := app(env.c.seqLenFn(env.sortOf(sq.Ty)), sq.T)
+				st.assumeOnce(app("<=", "0", ln))
+				return intVal(ln)
+			case "seqat", "seqat2":
+				sq := env.eval(x.Args[0], st)
+				i := env.eval(x.Args[1], st)
+				sig, ok := types.Unalias(env.subst(sq.Ty)).Underlying().(*types.Signature)
+				if !ok {
+					env.c.unsupported("seqat of non-sequence")
+					return Val{}
+				}
+				w := 0
+				if id.Name == "seqat2" {
+					w = 1
+				}
+				return env.c.seqElem(env, st, env.sortOf(sq.Ty), sig, sq, i, w)
 			case "held":
 				// held(mu-expr): lock token
 				return boolVal("true")
@@ -294,12 +320,27 @@ func (env *Env) evalQuant(kind string, x *ast.CallExpr, st *State) Val {
 	sub.noSafety = true
 	body := sub.evalBool(ret.Results[0], scratch)
 	extra := scratch.pc[n:]
+	// read-time type facts met inside the body are always true: assert them as
+	// axioms (quantified when they mention a bound variable) instead of guarding the body
+	for _, ex := range extra {
+		mentions := false
+		for _, bn := range bnames {
+			if strings.Contains(ex, bn) {
+				mentions = true
+			}
+		}
+		if mentions {
+			st.assumeOnce(fmt.Sprintf("(forall (%s) %s)", strings.Join(binders, " "), ex))
+		} else {
+			st.assumeOnce(ex)
+		}
+	}
 	g := and(guards...)
 	var q string
 	if kind == "forall" {
-		q = fmt.Sprintf("(forall (%s) %s)", strings.Join(binders, " "), implies(and(append([]string{g}, extra...)...), body))
+		q = fmt.Sprintf("(forall (%s) %s)", strings.Join(binders, " "), implies(g, body))
 	} else {
-		q = fmt.Sprintf("(exists (%s) %s)", strings.Join(binders, " "), and(append(append([]string{g}, extra...), body)...))
+		q = fmt.Sprintf("(exists (%s) %s)", strings.Join(binders, " "), and(g, body))
 	}
 	return boolVal(q)
 }
@@ -801,9 +842,11 @@ func (env *Env) applyContract(fi *FuncInfo, recv *Val, args []Val, st *State, ca
 			c.addObl(st, fmt.Sprintf("%scall%d:%s/pre#%d", env.tag(), j, short, k), "pre", g, c.e.pos(call.Pos()), "requires "+r.Text, nil)
 		}
 	}
-	if con.PanicsWhen != nil && !c.noSafety {
-		g := not(pre.evalBool(con.PanicsWhen.Expr, st))
-		c.addObl(st, fmt.Sprintf("%scall%d:%s/nopanic", env.tag(), j, short), "pre", g, c.e.pos(call.Pos()), "callee panics when "+con.PanicsWhen.Text, nil)
+	for k, h := range con.Holds {
+		tok := env.lockToken(pre, h, st)
+		if !st.held[tok] && !c.noSafety {
+			c.addObl(st, fmt.Sprintf("%scall%d:%s/holds#%d", env.tag(), j, short, k), "lock", "false", c.e.pos(call.Pos()), "callee requires lock "+h+" to be held", nil)
+		}
 	}
 	// guarded state of a monitor object is unstable outside its lock: forget it first
 	if recv != nil {
@@ -1282,4 +1325,17 @@ func (env *Env) havocGuarded(recv Val, st *State) {
 			st.assume(e2.evalBool(inv.Expr, st))
 		}
 	}
+}
+
+// lockToken evaluates "x.mu" to the lock token of object x.
+func (env *Env) lockToken(ce *Env, h string, st *State) string {
+	base, mu, ok := cutLast(h, ".")
+	if !ok {
+		return h
+	}
+	ex, err := parseExprCached(base)
+	if err != nil {
+		return h
+	}
+	return ce.eval(ex, st).T + "." + mu
 }
